@@ -1,6 +1,6 @@
 """C05 - evicting nodes from the object cache never changes behaviour and
 nothing stays pinned."""
-from .. import families, gen, harness, hist, inject, minidb, walker
+from .. import dbops, families, gen, harness, hist, inject, minidb, walker
 from ..harness import brief, call, eq
 from ..inject import FKey
 from ..runner import rng_for
@@ -13,7 +13,14 @@ RULE = ('evaluations = public calls on a container stored in MiniDB (real '
         '_p_deactivate() of a random node subset) injected between calls, '
         'inside key comparisons of a call (object-keyed families, FKey), and '
         'with deliberately failing calls; after EVERY single call each cached '
-        'node is inspected for a leftover pin (_p_sticky); distinct_nontrivial '
+        'node is inspected for a leftover pin (_p_sticky); plus operations '
+        'between TWO stored containers (set algebra, weighted operations, '
+        'multiunion, in-place operators, update, constructor, lazy sequence, '
+        'paired iteration) with a cache sweep at the n-th load inside the '
+        'call and, optionally, a later load refused by the data manager '
+        '(mode in-load: same result as unstored twins or the data '
+        "manager's error with operands unchanged and sound; nothing "
+        'pinned); distinct_nontrivial '
         '= distinct (impl, kind, mode, operation, outcome, nodes ghostified '
         'by the sweep [0/1/many]) tuples')
 ASSUMPTIONS = ['MiniDB stands in for a ZODB connection',
@@ -29,7 +36,12 @@ def must_see(tier):
             'c:read-dependency-refused': 30, 'py:read-dependency-refused': 30,
             'c:reload-inside-call': 20, 'pin-checks': 5000,
             'failing-call:TypeError': 20, 'failing-call:KeyError': 20,
-            'failing-call:ValueError': 5, 'failing-call:IndexError': 1}
+            'failing-call:ValueError': 5, 'failing-call:IndexError': 1,
+            'c:inload:sweep-inside-load': 100, 'py:inload:sweep-inside-load': 100,
+            'c:inload:reload-after-in-load-sweep': 30,
+            'py:inload:reload-after-in-load-sweep': 30,
+            'c:inload:load-refused-after-sweep': 20,
+            'py:inload:load-refused-after-sweep': 20}
 
 
 def plan(tier, seed):
@@ -55,6 +67,26 @@ def plan(tier, seed):
                               impl='py', mode='in-call', histories=30,
                               seed=seed, tier=tier, variant='mon',
                               timeout=3000))
+    # both operands of an operation stored; a sweep at the n-th load inside
+    # the call, optionally a later load refused (vmon/dbops.py)
+    rot = families.FAMILY_NAMES
+    if q:
+        k0 = (seed * 5) % len(rot)
+        rot = list(dict.fromkeys(['OO', 'II', 'fs'] + [
+            rot[(k0 + j) % len(rot)] for j in range(5)]))
+    for fam in rot:
+        for impl in ('c', 'py'):
+            specs.append(dict(label='inload-%s-%s' % (fam, impl), family=fam,
+                              impl=impl, mode='in-load',
+                              histories=120 if q else 2500, seed=seed,
+                              tier=tier, variant='mon',
+                              timeout=900 if q else 7200))
+    for fam in (['OO', 'IF'] if q else ['OO', 'IF', 'OI', 'LO', 'QQ', 'fs']):
+        specs.append(dict(label='inload-%s-c-asan' % fam, family=fam,
+                          impl='c', mode='in-load',
+                          histories=80 if q else 1200, seed=seed + 3,
+                          tier=tier, variant='asan',
+                          timeout=1500 if q else 7200))
     # the memory half: a node used without being pinned has its arrays freed
     # under the comparison -> use-after-free under ASan
     for fam in (['OO', 'OI'] if q else OBJ_FAMS):
@@ -65,9 +97,39 @@ def plan(tier, seed):
     return specs
 
 
+def _inload_tagger(mech, d):
+    # F38: a refused load while an in-place operator deletes from a stored
+    # multi-leaf tree (the key is gone from the leaf before the nodes needed
+    # to unlink the emptied leaf are loaded)
+    if (mech == 'tree-damaged' and d.get('refused') and d.get('which') == 'A'
+            and d.get('multi_leaf_a')
+            and d.get('op') in ('iand', 'isub', 'ixor')):
+        return 'F38'
+    # F16: pure-Python nodes are not pinned: a sweep that may ghostify the
+    # INTERIOR nodes a running operation works on
+    if d.get('impl') == 'py' and not d.get('leaves_only') and mech in (
+            'tree-damaged', 'result-differs-from-unstored-twins',
+            'contents-differ-from-unstored-twin', 'contents-raised-afterwards',
+            'operand-changed-by-reading-operation'):
+        return 'F16'
+    return None
+
+
 def run_shard(spec, rec):
     fam = families.get(spec['family'])
     impl = spec['impl']
+    if spec['mode'] == 'in-load':
+        for h in range(spec['histories']):
+            rng = rng_for(spec['seed'], ID, spec['label'], h)
+            n0 = rec.evaluations
+            dbops.run_case(fam, impl, rng, rec, 'inload',
+                           leaves_only=(impl == 'py' and h % 2 == 1),
+                           tagger=_inload_tagger)
+            if rec.evaluations > n0:
+                rec.ev('pin-checks')
+        for v in rec.violations:
+            v.setdefault('mode', 'in-load')
+        return
     for kind in families.KINDS:
         for h in range(spec['histories']):
             rng = rng_for(spec['seed'], ID, spec['label'], kind, h)
